@@ -13,6 +13,17 @@ pub fn run(ctx: &mut Ctx) {
          Every op compared with the Lean model; oracle = grammar re-stated in the harness. Non-trivial: all; distinct by (code, headers, capacity)");
     let mut rng = ctx.rng.fork();
     let gen_bytes = |rng: &mut Rng, maxlen: usize| -> Vec<u8> { let l = rng.usize_below(maxlen + 1); (0..l).map(|_| loop { let b = rng.next() as u8; if b != b'\n' && b != b'\r' { break b; } }).collect() };
+    // the documented precondition: `Status` (any case) must not be used as a header name — "verified by a debug assertion"; the harness
+    // builds the crate with debug assertions on, so these calls panic, in the crate and in the model's driver alike
+    log.case("flat-reserved-name");
+    for nm in ["Status", "status", "STATUS", "sTaTuS"] { for pos in 0..3usize {
+        let mut hdrs: Vec<(Vec<u8>, Vec<u8>)> = (0..3).map(|i| (format!("x-h{i}").into_bytes(), b"v".to_vec())).collect();
+        hdrs[pos].0 = nm.as_bytes().to_vec();
+        let op = format!("resp.headers vec 200 {} {}", hex(b"OK"), pairs_arg(&hdrs));
+        let o = ex(&mut log, &mut im, &op);
+        if o != "panic" { or.fail(format!("write_headers with the reserved header name `{nm}` did not hit its documented debug assertion: `{}`", &o[..o.len().min(80)]), format!("# case flat-oracle\n{op}"), "headers:reserved-name".into()); }
+        or.eval(("reserved", nm, pos), true);
+    } }
     log.case("flat-headers");
     for code in 100..=999u16 {
         let st = http::StatusCode::from_u16(code).unwrap();
@@ -23,7 +34,7 @@ pub fn run(ctx: &mut Ctx) {
             let nh = if k == 0 { 0 } else { rng.usize_below(9) };
             let hdrs: Vec<(Vec<u8>, Vec<u8>)> = (0..nh).map(|_| {
                 let mut n = gen_bytes(&mut rng, 12);
-                if n.eq_ignore_ascii_case(b"status") { n.push(b'x'); }   // the reserved name is excluded by the documented precondition
+                if n.eq_ignore_ascii_case(b"status") { n.push(b'x'); }   // the reserved name is excluded by the documented precondition (exercised separately below)
                 (n, gen_bytes(&mut rng, 20)) }).collect();
             let mut exp: Vec<u8> = format!("Status: {code} {}", reason.unwrap_or("Custom")).into_bytes();
             for (n, v) in &hdrs { exp.push(b'\n'); exp.extend(n); exp.extend(b": "); exp.extend(v); }
